@@ -187,7 +187,7 @@ def is_ast(x):
 # Scenario generation: sources + literal op list
 ###############################################################################
 
-OPS_ANY = ('str', 'repr', 'hash', 'eq', 'iterate', 'children', 'subtree', 'but_same', 'but_child', 'but_scalar', 'but_metadata', 'set_metadata', 'scribble_on_results', 'construct')
+OPS_ANY = ('str', 'repr', 'hash', 'eq', 'iterate', 'children', 'subtree', 'but_same', 'but_child', 'but_scalar', 'but_metadata', 'set_metadata', 'scribble_on_results', 'construct', 'small_queries')
 OPS_EXPR = ('external_references', 'contains_reference', 'contains_self_reference', 'contains_definition',
             'is_fully_typed', 'cast', 'replace_self_reference', 'replace_var_reference', 'type_check_expr',
             'simplify', 'split_and', 'refactor_reference', 'replace_this_with_var', 'replace_var_with_this',
@@ -455,15 +455,66 @@ def do_op(name, h, h2, op, pool, schema, msg_types):
             props = tuple(obj.properties) + tuple(extra[(sel >> 2) % len(extra):][:1] if extra else ())
             return HplSpecification(props[::-1] if sel & 1 else props), None
         if h.kind == 'event':
+            from hpl.ast.properties import HplPattern, HplScope
             other = h2.obj if h2.kind == 'event' else obj
-            return (HplEventDisjunction(obj, other) if sel & 1 else HplEventDisjunction(other, obj)), None
+            k = sel % 6
+            if k == 0:
+                return (HplEventDisjunction(obj, other) if sel & 8 else HplEventDisjunction(other, obj)), None
+            if k == 1:
+                return (HplScope.after(obj), HplScope.until(obj), HplScope.after_until(obj, other))[(sel >> 3) % 3], None
+            bound = (float('inf'), 0.1, 2.5)[(sel >> 3) % 3]
+            if k == 2:
+                return (HplPattern.existence(obj, max_time=bound) if sel & 64 else HplPattern.absence(obj, max_time=bound)), None
+            if k == 3:
+                return HplPattern.response(obj, other, max_time=bound), None
+            if k == 4:
+                return HplPattern.requirement(obj, other, max_time=bound), None
+            return HplPattern.prevention(obj, other, max_time=bound), None
+        if h.kind in ('scope', 'pattern'):
+            from hpl.ast.properties import HplProperty, HplScope
+            scopes = [x.obj for x in pool if x.kind == 'scope'] or [HplScope.globally()]
+            patterns = [x.obj for x in pool if x.kind == 'pattern']
+            if not patterns:
+                return obj.but(), 'same'
+            sc_ = obj if h.kind == 'scope' else scopes[(sel >> 2) % len(scopes)]
+            pt_ = obj if h.kind == 'pattern' else patterns[(sel >> 2) % len(patterns)]
+            return HplProperty(sc_, pt_, metadata={'id': 'built_%d' % (sel % 7)} if sel & 1 else {}), None
         if h.kind == 'predicate':
             return HplSimpleEvent.publish(('a', '/cmd_vel', 'ns/topic')[sel % 3], predicate=obj, alias=(None, 'C1')[(sel >> 2) & 1]), None
         if h.kind == 'expression':
-            if sel & 1:
+            from hpl.ast.expressions import HplBinaryOperator, HplQuantifier
+            k = sel % 5
+            if k == 0:
                 return predicate_from_expression(obj), None
-            return (HplUnaryOperator.minus(obj) if (sel >> 1) & 1 else HplUnaryOperator.negation(obj)), None
+            if k == 1:
+                return (HplUnaryOperator.minus(obj) if (sel >> 3) & 1 else HplUnaryOperator.negation(obj)), None
+            other = h2.obj if h2.kind == 'expression' else obj
+            if k == 2:
+                ctor = (HplBinaryOperator.conjunction, HplBinaryOperator.disjunction, HplBinaryOperator.implication,
+                        HplBinaryOperator.equivalence)[(sel >> 3) % 4]
+                return ctor(obj, other), None
+            if k == 3:
+                ctor = (HplBinaryOperator.addition, HplBinaryOperator.subtraction, HplBinaryOperator.multiplication,
+                        HplBinaryOperator.division, HplBinaryOperator.power)[(sel >> 3) % 5]
+                return ctor(obj, other), None
+            free = sorted(n.name for n in obj.iterate() if type(n).__name__ == 'HplVarReference')
+            var = free[(sel >> 3) % len(free)] if free else 'v1'
+            dom = synth_donors()[(sel >> 5) % 4]
+            return (HplQuantifier.forall(var, dom, obj) if (sel >> 4) & 1 else HplQuantifier.exists(var, dom, obj)), None
         return obj.but(), 'same'
+    if name == 'small_queries':
+        # the rest of the read-only surface
+        out = []
+        for attr in ('base_object', 'to_set', 'check_some_self_references'):
+            f = getattr(obj, attr, None)
+            if callable(f):
+                out.append(f())
+        if hasattr(obj, 'can_be'):
+            out.append([obj.can_be(t) for t in (DataType.BOOL, DataType.NUMBER, DataType.STRING, DataType.ARRAY)])
+        for x in out:
+            if isinstance(x, set):
+                x.clear()  # the caller's own set
+        return out, None
     if name == 'but_metadata':
         # the keyword the method itself looks for: the dict of another tree, of the receiver, or a fresh one
         k = op['sel'] % 3
